@@ -20,6 +20,8 @@ def path_arg(rng, doc):
         rparts = PARTS_GEN[0](rng, doc)
     else:
         rparts = gen.path_recipe(rng, doc, maxlen=2, p_prim=0.75) or [gen.prim_part(rng, doc)]
+        if rng.random() < 0.07:
+            rparts = []                  # the path with no parts: the document itself (its length, its type, its keys)
     concrete = all(isinstance(p, tuple) for p in rparts)
     dt = rng.choice(["none", "none", "none", "length", "dtype", "map_keys"])
     mt = "none" if concrete else rng.choice(["none", "first", "last", "all", "single"])
